@@ -5,7 +5,7 @@
                       harness drives through the synchronous API) against the clauses
                       of UringProp exhaustively for small constants;
   2. spec -> code   - TLC enumerates every command sequence of UringGen up to a bound
-                      (plus seeded -simulate behaviours in the thorough tier); each is
+                      (all of them); each is
                       executed on a real Fs + IoUringHostState entered directly and every
                       observation is compared with TLC's prediction (the fs seed is varied
                       until the pop order TLC chose among simultaneously matured entries
@@ -34,7 +34,7 @@ ALL_CTL = {"dropring", "close", "open", "shimw", "crash"}
 
 def consts(**kw):
     c = dict(Fill=9, Tick=1, LatChoices={1}, NF=1, InitLen=1, Entries={2}, Kinds=set(ALL_KINDS),
-             WVals={2}, WLens={1}, Offs={0}, RLens={2}, BadFlags={False}, CtlOps=set(),
+             WVals={2}, WLens={1}, Offs={0}, RLens={2}, BadFlags={False}, CtlOps=set(), Modes={"rw"},
              MaxRings=1, MaxOps=2, MaxTicks=2, MaxCrash=0)
     c.update(kw)
     return c
@@ -43,14 +43,22 @@ def consts(**kw):
 def mc_configs(tier):
     q = tier == "quick"
     cfgs = [
-        # every kind, unsupported flags, full SQ (entries 1), three latencies sampled per entry
-        ("mc_core2", consts(Entries={1, 2}, BadFlags={False, True}, LatChoices={0, 1, 2}, MaxOps=2, MaxTicks=2)),
-        # crash / drop / close / reopen / shim writes between submit and completion
-        ("mc_ctl2", consts(Entries={2}, Kinds={"read", "write", "cancel"}, LatChoices={1}, CtlOps=set(ALL_CTL),
-                           MaxOps=2, MaxTicks=2, MaxCrash=1)),
+        # every kind, unsupported flags, full SQ (entries 1), two latencies sampled per entry
+        ("mc_core2", consts(Entries={1, 2}, BadFlags={False, True}, LatChoices={0, 2}, MaxOps=2, MaxTicks=2)),
+        # crash between submit and completion, fsync durability
+        ("mc_crash2", consts(Entries={2}, Kinds={"write", "fsync", "cancel"}, LatChoices={1}, CtlOps={"crash"},
+                             MaxOps=2, MaxTicks=2, MaxCrash=1)),
+        # closed / re-opened handles between submit and completion
+        ("mc_close2", consts(Entries={2}, Kinds={"write", "read", "fsync"}, LatChoices={1}, CtlOps={"close", "open"},
+                             Modes={"rw", "ro", "wo"}, MaxOps=2, MaxTicks=1)),
+        # shim writes between ring operations (effect at pop time), dropped rings
+        ("mc_shimdrop2", consts(Entries={2}, Kinds={"write", "read", "cancel"}, LatChoices={1}, CtlOps={"shimw", "dropring"},
+                                MaxOps=2, MaxTicks=2)),
     ]
     if not q:
         cfgs += [
+            ("mc_ctl2", consts(Entries={2}, Kinds={"read", "write", "cancel"}, LatChoices={1}, CtlOps=set(ALL_CTL),
+                               MaxOps=2, MaxTicks=2, MaxCrash=1)),
             ("mc_core3", consts(Entries={2}, Kinds={"read", "write", "cancel"}, LatChoices={0, 1}, MaxOps=3, MaxTicks=2)),
             ("mc_fsync_crash3", consts(Entries={2}, Kinds={"write", "fsync", "cancel"}, LatChoices={0, 2},
                                        CtlOps={"crash"}, MaxOps=3, MaxTicks=2, MaxCrash=1)),
@@ -81,17 +89,6 @@ def gen_configs(tier):
     return cfgs
 
 
-def sim_configs(tier, seed):
-    """-simulate behaviour generation (long random behaviours of the ImplSpec)."""
-    if tier == "quick":
-        return [("gensim", consts(NF=2, Entries={1, 2, 4}, LatChoices={2}, WVals={2, 3}, WLens={1, 2}, Offs={0, 1}, RLens={1, 3},
-                                  BadFlags={False, True}, CtlOps=set(ALL_CTL), MaxRings=3, MaxOps=10, MaxTicks=8,
-                                  MaxCrash=2, GenLen=26), 2, 600)]
-    return [("gensim", consts(NF=2, Entries={1, 2, 4}, LatChoices={2}, WVals={2, 3}, WLens={1, 2}, Offs={0, 1}, RLens={1, 3},
-                              BadFlags={False, True}, CtlOps=set(ALL_CTL), MaxRings=3, MaxOps=14, MaxTicks=10,
-                              MaxCrash=2, GenLen=40), 2, 6000)]
-
-
 def random_configs(tier, seed):
     q = tier == "quick"
     runs = 30 if q else 200
@@ -116,7 +113,7 @@ def random_configs(tier, seed):
 def trace_consts(rc):
     lats = {rc["latlo"]} if rc["latlo"] == rc["lathi"] else set(range(rc["latlo"], rc["lathi"] + 1))
     return consts(Tick=rc["tick"], LatChoices=lats, NF=rc.get("nf", 2), InitLen=rc.get("initlen", 2), Entries=set(),
-                  Kinds=set(), WVals=set(), WLens=set(), Offs=set(), RLens=set(), BadFlags=set(), CtlOps=set(),
+                  Kinds=set(), WVals=set(), WLens=set(), Offs=set(), RLens=set(), BadFlags=set(), CtlOps=set(), Modes=set(),
                   MaxRings=100000, MaxOps=100000, MaxTicks=100000, MaxCrash=100000)
 
 
@@ -134,6 +131,22 @@ def validate_trace(path, tag, impl_consts=None):
         if ir.error or ir.timed_out:
             raise MachineryError(f"trace validation (impl) failed: {ir.error or 'timeout'}")
     return pr, ir
+
+
+def drive(ck, args, timeout=420):
+    """Run the driver. A driver that hangs or dies (the code under test may spin, e.g. an AsyncFd::readable loop
+    that never becomes ready) is a machinery error - unless violations were already reported, which take priority."""
+    import subprocess
+    try:
+        return vlib.run_driver("uring", args, timeout=timeout)
+    except (subprocess.TimeoutExpired, MachineryError) as e:
+        if ck.violations:
+            log(f"[{ck.pid}] note: driver {' '.join(args[:6])} ... did not finish ({type(e).__name__}); "
+                f"violations were already reported")
+            return None
+        if isinstance(e, subprocess.TimeoutExpired):
+            raise MachineryError(f"driver uring {' '.join(args)} did not finish within {timeout}s")
+        raise
 
 
 def rejected(r):
@@ -225,7 +238,8 @@ def run(pid, tier, seed, replay=None):
             log(vlib.counterexample_text(r))
             raise MachineryError(f"design-level check {name} did not pass: the committed ImplSpec does not satisfy the "
                                  f"PropSpec ({r.violated or r.error or 'timeout'}); the spec must be repaired first")
-        need = ["NewRing", "PushMC", "SubmitMC", "SyncMC", "PopSome", "PopNoneMC", "TickNow", "End"]
+        need = ["NewRing"] + [{"read": "PushRead", "write": "PushWrite", "fsync": "PushFsync", "cancel": "PushCancel"}[k]
+                              for k in sorted(c["Kinds"])] + ["SubmitMC", "SyncMC", "PopSome", "PopNoneMC", "TickNow", "End"]
         for op, act in (("dropring", "DropRingMC"), ("close", "CloseMC"), ("open", "OpenMC"), ("shimw", "ShimWriteMC"),
                         ("crash", "CrashMC")):
             if op in c["CtlOps"]:
@@ -245,16 +259,9 @@ def run(pid, tier, seed, replay=None):
         ck.extra["model_witnesses_reachable"] = True
 
     # 2. spec -> code -------------------------------------------------------
-    gens = [(n, c, lat, None) for n, c, lat in gen_configs(tier)] + \
-           [(n, c, lat, num) for n, c, lat, num in sim_configs(tier, seed)]
-    for name, c, lat, simnum in gens:
+    for name, c, lat in gen_configs(tier):
         cfg = vlib.cfg_text("GenSpec", c, invariants=["Emit"] + PROP_INVS)
-        if simnum:
-            r = vlib.run_tlc(SUB, "UringGen", cfg, f"{pid}_{name}", workers=4, timeout=900, heap="6g",
-                             simulate=f"num={simnum}", seed=seed)
-            r.depth_note = "simulate"
-        else:
-            r = vlib.run_tlc(SUB, "UringGen", cfg, f"{pid}_{name}", workers=10, timeout=1500, heap="12g")
+        r = vlib.run_tlc(SUB, "UringGen", cfg, f"{pid}_{name}", workers=10, timeout=1500, heap="12g")
         if r.violated or (r.error and "Emit" not in str(r.error)) or r.timed_out:
             log(vlib.counterexample_text(r))
             raise MachineryError(f"behaviour generation {name} failed ({r.violated or r.error or 'timeout'})")
@@ -280,7 +287,7 @@ def run(pid, tier, seed, replay=None):
         ck.extra["unrealised_orders"] += s["unrealised"]
         for smp in s["samples"][:1]:
             ck.sample({"kind": "tlc behaviour replayed on the real ring", "config": name, **smp})
-        for d in s["divergences"]:
+        for d in s["divergences"][:4]:        # the first few are judged by TLC; the rest are counted
             judge_divergence(ck, name, c, lat, d)
         ck.impl_drift += s["divergent"]
         if s["realised"] == 0:
@@ -309,7 +316,9 @@ def run(pid, tier, seed, replay=None):
     for i, rc in enumerate(random_configs(tier, seed)):
         tpath = os.path.join(w, f"random_{i}.ndjson")
         args = ["random"] + [f"{k}={v}" for k, v in rc.items() if k != "impl"]
-        out = vlib.run_driver("uring", args + [f"out={tpath}"])
+        out = drive(ck, args + [f"out={tpath}"])
+        if out is None:
+            continue
         features_of(tpath, feats)
         pr, ir = validate_trace(tpath, f"{pid}_rnd{i}", trace_consts(rc) if rc["impl"] else None)
         ck.add_tlc(pr, f"trace_prop_{i}")
@@ -337,8 +346,13 @@ def run(pid, tier, seed, replay=None):
     # vacuity on the executions of the real code
     ck.extra["features_exercised_on_code"] = feats
     missing = [k for k, v in feats.items() if v == 0]
-    if missing:
+    if missing and not ck.violations:
         raise MachineryError(f"vacuity: situations never exercised on the real code in this run: {missing}")
+    if missing:
+        log(f"[{pid}] note: situations never exercised on the real code in this run: {missing} (violations were reported)")
+
+    if ck.violations:
+        return ck.finish()
 
     # binding demonstration: corrupted traces must be rejected ----------------
     src = os.path.join(w, "random_0.ndjson")
@@ -361,29 +375,34 @@ def run(pid, tier, seed, replay=None):
 
 def corrupt_trace(src, dst, kind):
     lines = open(src).read().splitlines()
-    idx = [i for i, l in enumerate(lines) if '"ev":"cqe"' in l and '"res":-' not in l]
+    evs = [json.loads(l) for l in lines]
+    idx = [i for i, e in enumerate(evs) if e["ev"] == "cqe" and e["res"] >= 0]
     if not idx:
         return False
-    i = idx[len(idx) // 2]
-    e = json.loads(lines[i])
-    if kind == "dup_cqe":
-        lines.insert(i + 1, lines[i])
-    elif kind == "wrong_res":
-        e["res"] = e["res"] + 1
-        lines[i] = json.dumps(e)
+    if kind in ("dup_cqe", "wrong_res"):
+        i = idx[len(idx) // 2]
+        if kind == "dup_cqe":
+            lines.insert(i + 1, lines[i])
+        else:
+            e = dict(evs[i], res=evs[i]["res"] + 1)
+            lines[i] = json.dumps(e)
     elif kind == "early":
-        # move the completion in front of the last tick before it
-        j = max(k for k in range(i) if '"ev":"tick"' in lines[k] or '"ev":"reset"' in lines[k])
-        if '"ev":"reset"' in lines[j]:
+        # a completion that had to wait for its latency is moved to right after its submit
+        done = False
+        for i in idx:
+            start = max(k for k in range(i) if evs[k]["ev"] == "reset")
+            push = [k for k in range(start, i) if evs[k]["ev"] == "push" and evs[k]["ud"] == evs[i]["ud"]]
+            if not push or evs[push[0]]["llo"] <= 0:
+                continue
+            sub = [k for k in range(push[0], i) if evs[k]["ev"] == "submit" and evs[k]["r"] == evs[push[0]]["r"] and evs[k]["ok"]]
+            if not sub or not any(evs[k]["ev"] == "tick" for k in range(sub[0], i)):
+                continue
+            line = lines.pop(i)
+            lines.insert(sub[0] + 1, line)
+            done = True
+            break
+        if not done:
             return False
-        # find the submit of this entry: the pop must end up before its latency elapsed
-        ticks = [k for k in range(i) if '"ev":"tick"' in lines[k]]
-        sub = max(k for k in range(i) if '"ev":"submit"' in lines[k])
-        ticks = [k for k in ticks if k > sub]
-        if not ticks:
-            return False
-        line = lines.pop(i)
-        lines.insert(ticks[0], line)
     open(dst, "w").write("\n".join(lines) + "\n")
     return True
 
@@ -398,9 +417,11 @@ def run_corpus(ck, w):
         rp = json.load(open(os.path.join(cdir, cf)))
         tpath = os.path.join(w, f"corpus_{cf}.ndjson")
         if rp["kind"] == "script":
-            vlib.run_driver("uring", ["script", f"in={os.path.join(cdir, cf)}", f"out={tpath}"])
+            out = drive(ck, ["script", f"in={os.path.join(cdir, cf)}", f"out={tpath}"])
         else:
-            vlib.run_driver("uring", rp["args"] + [f"out={tpath}"])
+            out = drive(ck, rp["args"] + [f"out={tpath}"])
+        if out is None:
+            continue
         pr, _ = validate_trace(tpath, f"{pid}_corpus")
         ck.add_tlc(pr, "trace_corpus")
         ck.traces += rp.get("runs", 1)
